@@ -55,4 +55,6 @@ CancelOnly == {"cancel"}
 CloseOnly == {"close"}
 ShutdownOnly == {"shutdown"}
 AllFaults == {"cancel", "close", "shutdown"}
+FailOnly == {"fail"}
+AllFaults4 == {"cancel", "close", "shutdown", "fail"}
 =============================================================================
